@@ -247,6 +247,17 @@ func (c *c3) kindSwitch(s ast.Stmt, val string) (cases string, defErr bool) {
 	return "[" + strings.Join(parts, "; ") + "]", defErr
 }
 
+type c3clause struct {
+	kinds []string
+	conv  string
+}
+type c3scalar struct {
+	tag, rd, bits string
+	clauses       []c3clause
+}
+
+var c3scalars = map[string]*c3scalar{}
+
 func (c *c3) scalarEntry(sw *ast.SwitchStmt, tag string) string {
 	cc := c.caseOf(sw, tag)
 	if len(cc.List) != 1 {
@@ -299,6 +310,16 @@ func (c *c3) scalarEntry(sw *ast.SwitchStmt, tag string) string {
 		ks, text = eb.List[0], true
 	}
 	cases, defErr := c.kindSwitch(ks, val)
+	info := &c3scalar{tag: tag, rd: rd, bits: bits}
+	kcs, _ := clauses(ks.(*ast.SwitchStmt))
+	for _, kc := range kcs {
+		var kk []string
+		for _, e := range kc.List {
+			kk = append(kk, kindName(c, e))
+		}
+		info.clauses = append(info.clauses, c3clause{kk, c.convOf(kc, val)})
+	}
+	c3scalars[tag] = info
 	return fmt.Sprintf("  {| se_tag := nbt_%s; se_read := %s; se_bits := %s; se_read_first := true; se_text_first := %v;\n     se_cases := %s;\n     se_default_err := %v |}",
 		tag, rd, bits, text, cases, defErr)
 }
@@ -796,6 +817,8 @@ func (c *c3) sk(n ast.Node) string {
 			hd = fmt.Sprintf("for %s; %s; %s", c.srcOpt(s.Init), c.srcOpt(s.Cond), c.srcOpt(s.Post))
 		}
 		return node(hd, block(s.Body.List)...)
+	case *ast.RangeStmt:
+		return node(fmt.Sprintf("for %s, %s := range %s", c.srcOpt(s.Key), c.srcOpt(s.Value), c.src(s.X)), block(s.Body.List)...)
 	case *ast.SwitchStmt:
 		hd := "switch " + c.srcOpt(s.Tag)
 		if s.Init != nil {
@@ -851,6 +874,913 @@ func (c *c3) skelCase(name string, cc *ast.CaseClause) {
 	fmt.Fprintf(&c.out, "Definition %s : sk :=\n  Sk \"case\" [%s].\n\n", name, strings.Join(ks, "; "))
 }
 
+// ---- 5. Decoder.unmarshal as readers: interface{} destination (gen_any) and typed scalar / slice destinations (gen_ty) ----
+
+var c3Gty = map[string]string{"KBool": "GBool", "KInt": "GInt", "KInt8": "GI8", "KInt16": "GI16", "KInt32": "GI32", "KInt64": "GI64",
+	"KUint": "GUint", "KUint8": "GU8", "KUint16": "GU16", "KUint32": "GU32", "KUint64": "GU64", "KFloat32": "GF32", "KFloat64": "GF64", "KString": "GStr"}
+var c3Width = map[string]int{"KInt": 64, "KInt8": 8, "KInt16": 16, "KInt32": 32, "KInt64": 64, "KUint": 64, "KUint8": 8, "KUint16": 16, "KUint32": 32, "KUint64": 64}
+var c3Rd = map[string]string{"RdInt8": "gen_readInt8", "RdInt16": "rd_i16", "RdInt32": "rd_i32", "RdInt64": "rd_i64", "RdString": "gen_readString"}
+
+func (c *c3) want(n ast.Node, want string) {
+	if got := c.src(n); got != want {
+		c.fail(n, "expected `%s`, found `%s`", want, got)
+	}
+}
+
+// for i := 0; i OP int(<count>); i++   ->  the number of iterations as a Coq term over n
+func (c *c3) loopCount(fs *ast.ForStmt, bound string) (string, bool) {
+	if fs.Init == nil || fs.Cond == nil || fs.Post == nil || c.src(fs.Init) != "i := 0" || c.src(fs.Post) != "i++" {
+		c.fail(fs, "expected `for i := 0; i < %s; i++`", bound)
+	}
+	b, ok := fs.Cond.(*ast.BinaryExpr)
+	if !ok || c.src(b.X) != "i" || c.src(b.Y) != bound {
+		c.fail(fs, "expected the loop condition `i < %s`", bound)
+	}
+	switch b.Op {
+	case token.LSS:
+		return "(Z.to_N n)", true
+	case token.LEQ: // one iteration too many: the last Index(i) is out of range
+		return "(Z.to_N n + 1)", false
+	}
+	c.fail(fs, "loop condition operator not handled")
+	return "", false
+}
+
+func (c *c3) scalarAny(sc *c3scalar) string {
+	ok := false
+	for _, cl := range sc.clauses {
+		for _, k := range cl.kinds {
+			if k == "KInterface" {
+				if cl.conv != "CSetValue" {
+					c.fail(nil, "case %s: the reflect.Interface clause must be val.Set(reflect.ValueOf(value))", sc.tag)
+				}
+				ok = true
+			}
+		}
+	}
+	if !ok {
+		return "Fail eType"
+	}
+	if sc.rd == "RdString" {
+		return "s <- gen_readString ;; Ret (AString s)"
+	}
+	val := map[string]string{"RdInt8": "AByte v", "RdInt16": "AShort v", "RdInt32": "AInt v", "RdInt64": "ALong v"}[sc.rd]
+	if sc.bits == "BFloat32" {
+		val = "AFloat (u32 v)"
+	} else if sc.bits == "BFloat64" {
+		val = "ADouble (u64 v)"
+	}
+	return fmt.Sprintf("v <- %s ;; Ret (%s)", c3Rd[sc.rd], val)
+}
+
+func (c *c3) scalarTy(sc *c3scalar) string {
+	var arms []string
+	for _, cl := range sc.clauses {
+		for _, k := range cl.kinds {
+			if k == "KInterface" {
+				continue
+			}
+			g, ok := c3Gty[k]
+			if !ok {
+				c.fail(nil, "case %s: kind %s has no destination type in Model/C01.v", sc.tag, k)
+			}
+			var v string
+			switch {
+			case cl.conv == "CBoolNe0" && sc.bits == "BNone":
+				v = "XBool (negb (v =? 0)%Z)"
+			case cl.conv == "CSetInt" && sc.bits == "BNone":
+				v = fmt.Sprintf("XInt (sx %d (wrapu %d v))", c3Width[k], c3Width[k])
+			case cl.conv == "CSetUint" && sc.bits == "BNone":
+				v = fmt.Sprintf("XInt (Z.of_N (wrapu %d v))", c3Width[k])
+			case cl.conv == "CSetValue" && sc.bits == "BFloat32" && k == "KFloat32":
+				v = "XF32 (u32 v)"
+			case cl.conv == "CSetFloat64" && sc.bits == "BFloat32" && k == "KFloat64":
+				v = "XF64 (widen32 (u32 v))"
+			case cl.conv == "CSetValue" && sc.bits == "BFloat64" && k == "KFloat64":
+				v = "XF64 (u64 v)"
+			case cl.conv == "CSetString" && sc.rd == "RdString":
+				v = "XStr s"
+			default:
+				c.fail(nil, "case %s: store %s into %s is not handled", sc.tag, cl.conv, k)
+			}
+			arms = append(arms, fmt.Sprintf("| %s => Ret (%s)", g, v))
+		}
+	}
+	x := "v"
+	if sc.rd == "RdString" {
+		x = "s"
+	}
+	return fmt.Sprintf("%s <- %s ;; match t with %s | _ => Fail eType end", x, c3Rd[sc.rd], strings.Join(arms, " "))
+}
+
+func stepsPrefix(steps []string, readBytesVar string) (string, int) {
+	var sb strings.Builder
+	closes := 0
+	for _, s := range steps {
+		switch s {
+		case "StEnter":
+			sb.WriteString("if dep =? 0 then Fail eDepth else ")
+		case "StReadElemType":
+			sb.WriteString("et <- rd_u8 ;; ")
+		case "StReadCount":
+			sb.WriteString("n <- rd_i32 ;; ")
+		case "StNegative":
+			sb.WriteString("if (n <? 0)%Z then Fail eNeg else ")
+		case "StReadBytes":
+			sb.WriteString("ReadFull (Z.to_N n) (fun " + readBytesVar + " => ")
+			closes++
+		}
+	}
+	return sb.String(), closes
+}
+
+type c3arms struct{ any, ty, stList, stArray string }
+
+// the element loop of TagIntArray / TagLongArray: grow; read; store
+func (c *c3) elemLoop(fs *ast.ForStmt, cnt, read string) (count string, inRange bool, store []ast.Stmt) {
+	count, inRange = c.loopCount(fs, "int("+cnt+")")
+	l := fs.Body.List
+	if len(l) < 4 {
+		c.fail(fs, "element loop: expected grow; read; err check; store")
+	}
+	c.want(l[0], "if i == buf.Len() { buf = growSlice(buf, int("+cnt+")) }")
+	c.want(l[1], "value, err := "+read)
+	if !c.isErrReturn(l[2]) {
+		c.fail(l[2], "element loop: expected `if err != nil { return err }`")
+	}
+	return count, inRange, l[3:]
+}
+
+func (c *c3) caseByteArray(cc *ast.CaseClause) c3arms {
+	st := c.steps(cc, map[string]bool{"d.readInt32()": true}, nil, false)
+	if strings.Join(st.steps, ",") != "StReadCount,StNegative,StReadBytes" || len(st.rest) != 2 {
+		c.fail(cc, "TagByteArray: expected count; < 0; readBytes; vt := val.Type(); if ..")
+	}
+	c.want(st.rest[0], "vt := val.Type()")
+	i1, ok := st.rest[1].(*ast.IfStmt)
+	if !ok || c.src(i1.Cond) != "vt == reflect.TypeOf(ba)" || len(i1.Body.List) != 1 {
+		c.fail(st.rest[1], "TagByteArray: expected `if vt == reflect.TypeOf(ba) { val.SetBytes(ba) }`")
+	}
+	c.want(i1.Body.List[0], "val.SetBytes(ba)")
+	i2, ok := i1.Else.(*ast.IfStmt)
+	if !ok || i2.Init == nil || c.src(i2.Init) != "k := vt.Kind()" || c.src(i2.Cond) != "k == reflect.Slice || k == reflect.Array" || len(i2.Body.List) != 1 {
+		c.fail(i1, "TagByteArray: expected `else if k := vt.Kind(); k == reflect.Slice || k == reflect.Array {switch..}`")
+	}
+	sw, ok := i2.Body.List[0].(*ast.SwitchStmt)
+	if !ok || c.src(sw.Init) != "ve := vt.Elem()" || c.src(sw.Tag) != "ve.Kind()" {
+		c.fail(i2, "TagByteArray: expected `switch ve := vt.Elem(); ve.Kind()`")
+	}
+	cs, def := clauses(sw)
+	if len(cs) != 1 || def == nil || len(def.Body) != 1 || !strings.HasPrefix(c.src(def.Body[0]), "return errors.New(") {
+		c.fail(sw, "TagByteArray: element switch shape")
+	}
+	b := cs[0].Body
+	if len(b) != 3 {
+		c.fail(cs[0], "TagByteArray: expected length := ..; if k == Array {..} else {..}; for ..")
+	}
+	c.want(b[0], "length := int(aryLen)")
+	c.want(b[1], `if k == reflect.Array { if vt.Len() != length { return errors.New("cannot parse TagByteArray to " + vt.String() + ", length not match") } } else { if val.Cap() < length { val.Set(reflect.MakeSlice(vt, length, length)) } val.SetLen(length) }`)
+	fs, ok := b[2].(*ast.ForStmt)
+	if !ok {
+		c.fail(b[2], "TagByteArray: expected the element loop")
+	}
+	_, inRange := c.loopCount(fs, "length")
+	if len(fs.Body.List) != 1 {
+		c.fail(fs, "TagByteArray: element loop body")
+	}
+	isw, ok := fs.Body.List[0].(*ast.SwitchStmt)
+	if !ok || isw.Init != nil || c.src(isw.Tag) != "ve.Kind()" {
+		c.fail(fs, "TagByteArray: expected `switch ve.Kind()` in the element loop")
+	}
+	stores := map[string]string{}
+	ics, idef := clauses(isw)
+	if idef != nil {
+		c.fail(isw, "TagByteArray: no default expected in the element store switch")
+	}
+	for _, ic := range ics {
+		if len(ic.List) != 1 || len(ic.Body) != 1 {
+			c.fail(ic, "TagByteArray: one kind and one store per clause")
+		}
+		k := kindName(c, ic.List[0])
+		switch c.src(ic.Body[0]) {
+		case "val.Index(i).SetBool(ba[i] != 0)":
+			stores[k] = "XBool (negb (b =? 0))"
+		case "val.Index(i).SetInt(int64(int8(ba[i])))":
+			stores[k] = "XInt (sx8 b)"
+		case "val.Index(i).SetUint(uint64(ba[i]))":
+			stores[k] = "XInt (Z.of_N b)"
+		default:
+			c.fail(ic, "TagByteArray: unknown element store %s", c.src(ic.Body[0]))
+		}
+	}
+	var arms []string
+	for _, e := range cs[0].List {
+		k := kindName(c, e)
+		v, ok := stores[k]
+		if !ok {
+			c.fail(e, "TagByteArray: kind %s is accepted but never stored", k)
+		}
+		if !inRange {
+			arms = append(arms, fmt.Sprintf("| GSl %s => Crash 9", c3Gty[k]))
+		} else {
+			arms = append(arms, fmt.Sprintf("| GSl %s => Ret (XSlice (map (fun b => %s) bs))", c3Gty[k], v))
+		}
+	}
+	i3, ok := i2.Else.(*ast.IfStmt)
+	if !ok || c.src(i3.Cond) != "vt.Kind() == reflect.Interface" || len(i3.Body.List) != 1 || i3.Else == nil {
+		c.fail(i2, "TagByteArray: expected `else if vt.Kind() == reflect.Interface { val.Set(reflect.ValueOf(ba)) } else { error }`")
+	}
+	c.want(i3.Body.List[0], "val.Set(reflect.ValueOf(ba))")
+	if eb, ok := i3.Else.(*ast.BlockStmt); !ok || len(eb.List) != 1 || !strings.HasPrefix(c.src(eb.List[0]), "return errors.New(") {
+		c.fail(i3, "TagByteArray: the last else must return an error")
+	}
+	pre, cl := stepsPrefix(st.steps, "bs")
+	return c3arms{
+		any: pre + "Ret (ABytes bs)" + strings.Repeat(")", cl),
+		ty:  pre + "match t with " + strings.Join(arms, " ") + " | _ => Fail eType end" + strings.Repeat(")", cl),
+	}
+}
+
+func (c *c3) caseIntArray(cc *ast.CaseClause) c3arms {
+	st := c.steps(cc, map[string]bool{"d.readInt32()": true}, nil, false)
+	if strings.Join(st.steps, ",") != "StReadCount,StNegative" || len(st.rest) != 6 {
+		c.fail(cc, "TagIntArray: expected count; < 0; vt := ..; if chain; buf := val; if slice; for; if slice")
+	}
+	r := st.rest
+	c.want(r[0], "vt := val.Type()")
+	i1, ok := r[1].(*ast.IfStmt)
+	if !ok || c.src(i1.Cond) != "vt.Kind() == reflect.Interface" || len(i1.Body.List) != 1 {
+		c.fail(r[1], "TagIntArray: expected `if vt.Kind() == reflect.Interface { vt = reflect.TypeOf([]int32{}) }`")
+	}
+	c.want(i1.Body.List[0], "vt = reflect.TypeOf([]int32{})")
+	i2, ok := i1.Else.(*ast.IfStmt)
+	if !ok || c.src(i2.Cond) != "vt.Kind() == reflect.Array && vt.Len() != int(aryLen)" || !strings.HasPrefix(c.src(i2.Body.List[0]), "return errors.New(") {
+		c.fail(i1, "TagIntArray: expected the array length test")
+	}
+	i3, ok := i2.Else.(*ast.IfStmt)
+	if !ok || i3.Init == nil || c.src(i3.Init) != "k := vt.Kind()" || c.src(i3.Cond) != "k != reflect.Slice && k != reflect.Array" || !strings.HasPrefix(c.src(i3.Body.List[0]), "return errors.New(") {
+		c.fail(i2, "TagIntArray: expected the container kind test")
+	}
+	i4, ok := i3.Else.(*ast.IfStmt)
+	if !ok || i4.Init == nil || c.src(i4.Init) != "tk := val.Type().Elem().Kind()" || i4.Else != nil || !strings.HasPrefix(c.src(i4.Body.List[0]), "return errors.New(") {
+		c.fail(i3, "TagIntArray: expected the element kind test")
+	}
+	var kinds []string
+	var walk func(e ast.Expr)
+	walk = func(e ast.Expr) {
+		b, ok := e.(*ast.BinaryExpr)
+		if ok && b.Op == token.LAND {
+			walk(b.X)
+			walk(b.Y)
+			return
+		}
+		if !ok || b.Op != token.NEQ || c.src(b.X) != "tk" {
+			c.fail(e, "TagIntArray: expected `tk != reflect.X`")
+		}
+		kinds = append(kinds, kindName(c, b.Y))
+	}
+	walk(i4.Cond)
+	c.want(r[2], "buf := val")
+	c.want(r[3], "if vt.Kind() == reflect.Slice { buf = makeSlice(vt, int(aryLen)) }")
+	fs, ok := r[4].(*ast.ForStmt)
+	if !ok {
+		c.fail(r[4], "TagIntArray: expected the element loop")
+	}
+	count, inRange, store := c.elemLoop(fs, "aryLen", "d.readInt32()")
+	if len(store) != 1 {
+		c.fail(fs, "TagIntArray: one store statement expected")
+	}
+	c.want(store[0], "if e := buf.Index(i); e.CanUint() { e.SetUint(uint64(uint32(value))) } else { e.SetInt(int64(value)) }")
+	c.want(r[5], "if vt.Kind() == reflect.Slice { val.Set(buf) }")
+	tail := func(ret string) string {
+		if !inRange {
+			return fmt.Sprintf("_ <- rep f %s rd_i32 [] ;; Crash 9", count)
+		}
+		return fmt.Sprintf("l <- rep f %s rd_i32 [] ;; Ret (%s)", count, ret)
+	}
+	var arms []string
+	for _, k := range kinds {
+		v := "XSlice (map XInt l)"
+		if strings.HasPrefix(k, "KUint") { // e.CanUint(): SetUint(uint64(uint32(value)))
+			v = "XSlice (map (fun v => XInt (Z.of_N (u32 v))) l)"
+		}
+		arms = append(arms, fmt.Sprintf("| GSl %s => %s", c3Gty[k], tail(v)))
+	}
+	pre, _ := stepsPrefix(st.steps, "")
+	return c3arms{any: pre + tail("AInts l"), ty: pre + "match t with " + strings.Join(arms, " ") + " | _ => Fail eType end"}
+}
+
+func (c *c3) caseLongArray(cc *ast.CaseClause) c3arms {
+	st := c.steps(cc, map[string]bool{"d.readInt32()": true}, nil, false)
+	if strings.Join(st.steps, ",") != "StReadCount,StNegative" || len(st.rest) != 4 {
+		c.fail(cc, "TagLongArray: expected count; < 0; vt := ..; if chain; buf := val; switch")
+	}
+	r := st.rest
+	c.want(r[0], "vt := val.Type()")
+	i1, ok := r[1].(*ast.IfStmt)
+	if !ok || c.src(i1.Cond) != "vt.Kind() == reflect.Interface" || len(i1.Body.List) != 1 {
+		c.fail(r[1], "TagLongArray: expected the interface test")
+	}
+	c.want(i1.Body.List[0], "vt = reflect.TypeOf([]int64{})")
+	i2, ok := i1.Else.(*ast.IfStmt)
+	if !ok || c.src(i2.Cond) != "vt.Kind() == reflect.Array && vt.Len() != int(aryLen)" {
+		c.fail(i1, "TagLongArray: expected the array length test")
+	}
+	i3, ok := i2.Else.(*ast.IfStmt)
+	if !ok || i3.Init == nil || c.src(i3.Init) != "k := vt.Kind()" || c.src(i3.Cond) != "k != reflect.Slice && k != reflect.Array" || i3.Else != nil {
+		c.fail(i2, "TagLongArray: expected the container kind test")
+	}
+	c.want(r[2], "buf := val")
+	sw, ok := r[3].(*ast.SwitchStmt)
+	if !ok || sw.Init != nil || c.src(sw.Tag) != "vt.Elem().Kind()" {
+		c.fail(r[3], "TagLongArray: expected `switch vt.Elem().Kind()`")
+	}
+	cs, def := clauses(sw)
+	if def == nil || len(def.Body) != 1 || !strings.HasPrefix(c.src(def.Body[0]), "return errors.New(") {
+		c.fail(sw, "TagLongArray: the default must return an error")
+	}
+	var arms []string
+	anyArm := ""
+	for _, kc := range cs {
+		if len(kc.List) != 1 || len(kc.Body) != 3 {
+			c.fail(kc, "TagLongArray: one kind per clause; makeSlice; loop; Set")
+		}
+		k := kindName(c, kc.List[0])
+		c.want(kc.Body[0], "if vt.Kind() == reflect.Slice { buf = makeSlice(vt, int(aryLen)) }")
+		fs, ok := kc.Body[1].(*ast.ForStmt)
+		if !ok {
+			c.fail(kc.Body[1], "TagLongArray: expected the element loop")
+		}
+		count, inRange, store := c.elemLoop(fs, "aryLen", "d.readInt64()")
+		if len(store) != 1 {
+			c.fail(fs, "TagLongArray: one store statement expected")
+		}
+		var v string
+		switch c.src(store[0]) {
+		case "buf.Index(i).SetInt(value)":
+			v = "XSlice (map XInt l)"
+		case "buf.Index(i).SetUint(uint64(value))":
+			v = "XSlice (map (fun v => XInt (Z.of_N (u64 v))) l)"
+		default:
+			c.fail(store[0], "TagLongArray: unknown store")
+		}
+		c.want(kc.Body[2], "if vt.Kind() == reflect.Slice { val.Set(buf) }")
+		tail := func(ret string) string {
+			if !inRange {
+				return fmt.Sprintf("_ <- rep f %s rd_i64 [] ;; Crash 9", count)
+			}
+			return fmt.Sprintf("l <- rep f %s rd_i64 [] ;; Ret (%s)", count, ret)
+		}
+		arms = append(arms, fmt.Sprintf("| GSl %s => %s", c3Gty[k], tail(v)))
+		if k == "KInt64" { // the interface destination gets []int64
+			anyArm = tail("ALongs l")
+		}
+	}
+	if anyArm == "" {
+		c.fail(sw, "TagLongArray: no reflect.Int64 clause (the interface destination is []int64)")
+	}
+	pre, _ := stepsPrefix(st.steps, "")
+	return c3arms{any: pre + anyArm, ty: pre + "match t with " + strings.Join(arms, " ") + " | _ => Fail eType end"}
+}
+
+func (c *c3) caseList(cc *ast.CaseClause) c3arms {
+	st := c.steps(cc, map[string]bool{"d.readInt32()": true}, map[string]bool{"d.r.ReadByte()": true}, false)
+	if strings.Join(st.steps, ",") != "StEnter,StReadElemType,StReadCount,StNegative" || len(st.rest) != 5 {
+		c.fail(cc, "TagList: expected enter; element type; count; < 0; var buf; vk := ..; switch; for; if")
+	}
+	r := st.rest
+	c.want(r[0], "var buf reflect.Value")
+	c.want(r[1], "vk := val.Kind()")
+	sw, ok := r[2].(*ast.SwitchStmt)
+	if !ok || sw.Init != nil || c.src(sw.Tag) != "vk" {
+		c.fail(r[2], "TagList: expected `switch vk`")
+	}
+	cs, def := clauses(sw)
+	if def == nil || len(def.Body) != 1 || !strings.HasPrefix(c.src(def.Body[0]), "return errors.New(") {
+		c.fail(sw, "TagList: the default must return an error")
+	}
+	seen := map[string]bool{}
+	for _, kc := range cs {
+		if len(kc.List) != 1 {
+			c.fail(kc, "TagList: one kind per clause")
+		}
+		k := kindName(c, kc.List[0])
+		seen[k] = true
+		switch k {
+		case "KInterface":
+			c.want(kc.Body[0], "buf = makeSlice(reflect.TypeOf([]any(nil)), int("+st.count+"))")
+		case "KSlice":
+			c.want(kc.Body[0], "buf = makeSlice(val.Type(), int("+st.count+"))")
+		case "KArray":
+			if len(kc.Body) != 2 {
+				c.fail(kc, "TagList: array clause: length test; buf = val")
+			}
+			ai, ok := kc.Body[0].(*ast.IfStmt)
+			if !ok || c.src(ai.Init) != "vl := val.Len()" || c.src(ai.Cond) != "vl < int("+st.count+")" || !strings.HasPrefix(c.src(ai.Body.List[0]), "return fmt.Errorf(") {
+				c.fail(kc, "TagList: expected `if vl := val.Len(); vl < int(count) { return error }`")
+			}
+			c.want(kc.Body[1], "buf = val")
+		default:
+			c.fail(kc, "TagList: destination kind %s not handled", k)
+		}
+	}
+	fs, ok := r[3].(*ast.ForStmt)
+	if !ok {
+		c.fail(r[3], "TagList: expected the element loop")
+	}
+	count, inRange := c.loopCount(fs, "int("+st.count+")")
+	if len(fs.Body.List) != 2 {
+		c.fail(fs, "TagList: loop body: grow; unmarshal")
+	}
+	c.want(fs.Body.List[0], "if i == buf.Len() { buf = growSlice(buf, int("+st.count+")) }")
+	c.want(fs.Body.List[1], "if err := d.unmarshal(buf.Index(i), "+st.et+"); err != nil { return err }")
+	c.want(r[4], "if vk != reflect.Array { val.Set(buf) }")
+	tail := func(self, ret string) string {
+		if !inRange {
+			return fmt.Sprintf("_ <- rep f %s (%s) [] ;; Crash 9", count, self)
+		}
+		return fmt.Sprintf("l <- rep f %s (%s) [] ;; Ret (%s)", count, self, ret)
+	}
+	pre, _ := stepsPrefix(st.steps, "")
+	a := "Fail eType"
+	if seen["KInterface"] {
+		a = tail("gen_any f (dep - 1) et", "AList l")
+	}
+	t := "Fail eType"
+	if seen["KSlice"] {
+		t = "match t with | GSl e => " + tail("gen_ty f (dep - 1) e et", "XSlice l") + " | _ => Fail eType end"
+	}
+	// destination []T with T a struct / pointer / array / RawMessage (Model/C03.v) and destination [n]T
+	stl := "Fail eType"
+	if seen["KSlice"] {
+		stl = tail("self f (dep - 1) t (zero t) et", "YList l")
+	}
+	sta := "Fail eType"
+	if seen["KArray"] {
+		loop := fmt.Sprintf("l <- arr_loop f %s (gen_ty f (dep - 1) t et) [] c ;; Ret (YArr l)", count)
+		if !inRange {
+			loop = fmt.Sprintf("_ <- arr_loop f %s (gen_ty f (dep - 1) t et) [] c ;; Crash 9", count)
+		}
+		sta = "if (Z.of_N (lenN c) <? n)%Z then Fail eType else " + loop // if vl := val.Len(); vl < int(listLen) { return error }
+	}
+	return c3arms{any: pre + a, ty: pre + t, stList: pre + stl, stArray: pre + sta}
+}
+
+// the reflect.Struct and reflect.Map clauses of the TagCompound case
+func (c *c3) caseCompoundSt(cc *ast.CaseClause) (structCase, mapCase string) {
+	var sw *ast.SwitchStmt
+	for _, s := range cc.Body {
+		if x, ok := s.(*ast.SwitchStmt); ok && x.Init != nil && c.src(x.Init) == "vk := val.Kind()" {
+			sw = x
+		}
+	}
+	if sw == nil {
+		c.fail(cc, "TagCompound: `switch vk := val.Kind(); vk` not found")
+	}
+	cs, def := clauses(sw)
+	if def == nil || len(def.Body) != 1 || !strings.HasPrefix(c.src(def.Body[0]), "return errors.New(") {
+		c.fail(sw, "TagCompound: the default clause must return an error")
+	}
+	for _, kc := range cs {
+		if len(kc.List) != 1 {
+			c.fail(kc, "TagCompound: one kind per clause")
+		}
+		switch kindName(c, kc.List[0]) {
+		case "KStruct":
+			if len(kc.Body) != 2 {
+				c.fail(kc, "TagCompound/Struct: expected fields := cachedTypeFields(..); for {..}")
+			}
+			c.want(kc.Body[0], "fields := cachedTypeFields(val.Type())")
+			fs, ok := kc.Body[1].(*ast.ForStmt)
+			if !ok {
+				c.fail(kc.Body[1], "TagCompound/Struct: expected the tag loop")
+			}
+			body, hasEnd := c.tagLoop(fs, "tt, tn, err := d.readTag()", "tt == TagEnd")
+			if len(body) != 3 {
+				c.fail(fs, "TagCompound/Struct: loop body: var f *field; lookup; if f != nil {..} else ..")
+			}
+			c.want(body[0], "var f *field")
+			// lookup: exact name through the index, then the first field equal under strings.EqualFold
+			c.want(body[1], "if i, ok := fields.nameIndex[tn]; ok { f = &fields.list[i] } else { for i := range fields.list { ff := &fields.list[i] if strings.EqualFold(ff.name, tn) { f = ff break } } }")
+			ifs, ok := body[2].(*ast.IfStmt)
+			if !ok || c.src(ifs.Cond) != "f != nil" {
+				c.fail(body[2], "TagCompound/Struct: expected `if f != nil`")
+			}
+			fb := ifs.Body.List
+			if len(fb) != 4 {
+				c.fail(ifs, "TagCompound/Struct: found branch: val := val; walk f.index; unmarshal; wrap the error")
+			}
+			c.want(fb[0], "val := val")
+			c.want(fb[1], `for _, i := range f.index { if val.Kind() == reflect.Pointer { if val.IsNil() { if !val.CanSet() { return fmt.Errorf("cannot set embedded pointer to unexported struct: %v", val.Type().Elem()) } val.Set(reflect.New(val.Type().Elem())) } val = val.Elem() } val = val.Field(i) }`)
+			c.want(fb[2], "err = d.unmarshal(val, tt)")
+			c.want(fb[3], "if err != nil { return &fieldError{tn, err} }")
+			// unknown field
+			unknown := "Ret acc" // nothing is read for an unknown field
+			if ifs.Else != nil {
+				e1, ok := ifs.Else.(*ast.IfStmt)
+				if !ok {
+					c.fail(ifs, "TagCompound/Struct: unknown-field branch shape")
+				}
+				skip := e1
+				if c.src(e1.Cond) == "d.disallowUnknownFields" { // off by default: the model is of the default decoder
+					if len(e1.Body.List) != 1 || !strings.HasPrefix(c.src(e1.Body.List[0]), "return fmt.Errorf(") {
+						c.fail(e1, "TagCompound/Struct: DisallowUnknownFields must return an error")
+					}
+					skip = nil
+					if e1.Else != nil {
+						skip, ok = e1.Else.(*ast.IfStmt)
+						if !ok {
+							c.fail(e1, "TagCompound/Struct: unknown-field branch shape")
+						}
+					}
+				}
+				if skip != nil {
+					if skip.Init == nil || c.src(skip.Init) != "err := d.rawRead(tt)" || c.src(skip.Cond) != "err != nil" || c.src(skip.Body.List[0]) != "return err" || skip.Else != nil {
+						c.fail(skip, "TagCompound/Struct: expected `else if err := d.rawRead(tt); err != nil { return err }`")
+					}
+					unknown = "_ <- gen_rawRead f (dep - 1) tt ;; Ret acc"
+				}
+			}
+			loop := "st_loop"
+			if !hasEnd {
+				c.fail(fs, "TagCompound/Struct: the `if tt == TagEnd { break }` test is missing")
+			}
+			structCase = "if dep =? 0 then Fail eDepth else\n    let c := match cur with YStruct l => l | _ => map (fun fd => zero (snd fd)) fs end in\n    l <- " + loop +
+				" f (fun tt tn acc =>\n           match find_field fs tn with   (* fields.nameIndex[tn], then the first strings.EqualFold match *)\n           | Some (i, fty) => v <- self f (dep - 1) fty (nth i acc (zero fty)) tt ;; Ret (set_nth i v acc)\n           | None => " + unknown + "\n           end) c ;;\n    Ret (YStruct l)"
+		case "KMap":
+			if len(kc.Body) != 4 {
+				c.fail(kc, "TagCompound/Map: expected vt := ..; key test; nil test; for {..}")
+			}
+			c.want(kc.Body[0], "vt := val.Type()")
+			c.want(kc.Body[1], `if vt.Key().Kind() != reflect.String { return errors.New("cannot parse TagCompound as " + val.Type().String()) }`)
+			c.want(kc.Body[2], "if val.IsNil() { val.Set(reflect.MakeMap(vt)) }")
+			fs, ok := kc.Body[3].(*ast.ForStmt)
+			if !ok {
+				c.fail(kc.Body[3], "TagCompound/Map: expected the tag loop")
+			}
+			body, hasEnd := c.tagLoop(fs, "tt, tn, err := d.readTag()", "tt == TagEnd")
+			if len(body) != 3 {
+				c.fail(fs, "TagCompound/Map: loop body")
+			}
+			c.want(body[0], "v := reflect.New(val.Type().Elem())")
+			c.want(body[1], "if err = d.unmarshal(v.Elem(), tt); err != nil { return &fieldError{tn, err} }")
+			c.want(body[2], "val.SetMapIndex(reflect.ValueOf(tn), v.Elem())")
+			loop := "comp_loop"
+			if !hasEnd {
+				loop = "comp_loop_noend"
+			}
+			mapCase = "if dep =? 0 then Fail eDepth else\n    let m0 := match cur with YMap (Some m) => m | _ => [] end in   (* a nil map is made, a used one is added to *)\n    m <- " + loop +
+				" f gen_readTag (gen_any f (dep - 1)) (fun k v m => map_set k v m) m0 ;; Ret (YMap (Some m))"
+		case "KInterface":
+		default:
+			c.fail(kc, "TagCompound: destination kind %s not handled", c.src(kc.List[0]))
+		}
+	}
+	if structCase == "" || mapCase == "" {
+		c.fail(sw, "TagCompound: the Struct or the Map clause is missing")
+	}
+	return
+}
+
+// for { tt, tn, err := <readTag>; if err != nil { return err }; if tt == TagEnd { break }; <body> }
+// returns the body statements and whether the TagEnd test is there
+func (c *c3) tagLoop(fs *ast.ForStmt, readTag, end string) (body []ast.Stmt, hasEnd bool) {
+	if fs.Init != nil || fs.Cond != nil || fs.Post != nil {
+		c.fail(fs, "expected `for {`")
+	}
+	l := fs.Body.List
+	if len(l) < 2 {
+		c.fail(fs, "tag loop too short")
+	}
+	c.want(l[0], readTag)
+	if !c.isErrReturn(l[1]) {
+		c.fail(l[1], "tag loop: expected `if err != nil { return err }`")
+	}
+	if len(l) > 2 && c.src(l[2]) == "if "+end+" { break }" {
+		return l[3:], true
+	}
+	return l[2:], false
+}
+
+func (c *c3) caseCompoundAny(cc *ast.CaseClause) string {
+	st := c.steps(cc, nil, nil, false)
+	if strings.Join(st.steps, ",") != "StEnter" {
+		c.fail(cc, "TagCompound: expected enter first")
+	}
+	var sw *ast.SwitchStmt
+	for _, s := range st.rest {
+		if x, ok := s.(*ast.SwitchStmt); ok && x.Init != nil && c.src(x.Init) == "vk := val.Kind()" {
+			sw = x
+		}
+	}
+	if sw == nil {
+		c.fail(cc, "TagCompound: `switch vk := val.Kind(); vk` not found")
+	}
+	cs, _ := clauses(sw)
+	for _, kc := range cs {
+		if len(kc.List) == 1 && kindName(c, kc.List[0]) == "KInterface" {
+			if len(kc.Body) != 3 {
+				c.fail(kc, "TagCompound/Interface: expected buf := make(map[string]any); for {..}; val.Set(..)")
+			}
+			c.want(kc.Body[0], "buf := make(map[string]any)")
+			fs, ok := kc.Body[1].(*ast.ForStmt)
+			if !ok {
+				c.fail(kc.Body[1], "TagCompound/Interface: expected the tag loop")
+			}
+			body, hasEnd := c.tagLoop(fs, "tt, tn, err := d.readTag()", "tt == TagEnd")
+			if len(body) != 3 {
+				c.fail(fs, "TagCompound/Interface: loop body: var value any; unmarshal; buf[tn] = value")
+			}
+			c.want(body[0], "var value any")
+			c.want(body[1], "if err = d.unmarshal(reflect.ValueOf(&value).Elem(), tt); err != nil { return &fieldError{tn, err} }")
+			c.want(body[2], "buf[tn] = value")
+			c.want(kc.Body[2], "val.Set(reflect.ValueOf(buf))")
+			loop := "comp_loop f gen_readTag (gen_any f (dep - 1)) (fun k v m => map_set k v m) []"
+			if !hasEnd { // without the TagEnd test the loop only ends with an error
+				loop = "comp_loop_noend f gen_readTag (gen_any f (dep - 1)) (fun k v m => map_set k v m) []"
+			}
+			return "if dep =? 0 then Fail eDepth else m <- " + loop + " ;; Ret (AMap m)"
+		}
+	}
+	c.fail(sw, "TagCompound: no reflect.Interface clause")
+	return ""
+}
+
+func (c *c3) genUnmarshal(usw *ast.SwitchStmt) {
+	arms := map[string]c3arms{}
+	for _, t := range []string{"TagByte", "TagShort", "TagInt", "TagFloat", "TagLong", "TagDouble", "TagString"} {
+		sc := c3scalars[t]
+		arms[t] = c3arms{any: c.scalarAny(sc), ty: c.scalarTy(sc)}
+	}
+	arms["TagEnd"] = c3arms{any: "Fail eEND", ty: "Fail eEND"}
+	arms["TagByteArray"] = c.caseByteArray(c.caseOf(usw, "TagByteArray"))
+	arms["TagIntArray"] = c.caseIntArray(c.caseOf(usw, "TagIntArray"))
+	arms["TagLongArray"] = c.caseLongArray(c.caseOf(usw, "TagLongArray"))
+	arms["TagList"] = c.caseList(c.caseOf(usw, "TagList"))
+	arms["TagCompound"] = c3arms{any: c.caseCompoundAny(c.caseOf(usw, "TagCompound")), ty: "if dep =? 0 then Fail eDepth else Fail eType"}
+	cs, _ := clauses(usw)
+	chain := func(pick func(c3arms) string, indent string) string {
+		var sb strings.Builder
+		for i, cc := range cs {
+			if len(cc.List) != 1 {
+				c.fail(cc, "unmarshal: one tag per case expected")
+			}
+			tag := c.src(cc.List[0])
+			a, ok := arms[tag]
+			if !ok {
+				c.fail(cc, "unmarshal: case %s not handled", tag)
+			}
+			kw := indent + "else if "
+			if i == 0 {
+				kw = indent + "if "
+			}
+			fmt.Fprintf(&sb, "%sid =? Z.to_N nbt_%s then %s\n", kw, tag, pick(a))
+		}
+		sb.WriteString(indent + "else Fail eUnknown\n")
+		return sb.String()
+	}
+	c.out.WriteString("(* `for {` without the `if tt == TagEnd { break }` test (never emitted for today's source) *)\n")
+	c.out.WriteString("Fixpoint comp_loop_noend {A M} (fuel : nat) (rt : dec (N * list N)) (d : N -> dec A) (upd : list N -> A -> M -> M) (acc : M) : dec M :=\n  match fuel with O => NoFuel | S f => tn <- rt ;; v <- d (fst tn) ;; comp_loop_noend f rt d upd (upd (snd tn) v acc) end.\n\n")
+	c.out.WriteString("(* Decoder.unmarshal, destination interface{} holding nil *)\nFixpoint gen_any (fuel : nat) (dep : N) (id : N) : dec aval :=\n  match fuel with\n  | O => NoFuel\n  | S f =>\n")
+	c.out.WriteString(chain(func(a c3arms) string { return a.any }, "      "))
+	c.out.WriteString("  end.\n\n")
+	c.out.WriteString("(* Decoder.unmarshal, typed scalar / slice destinations (an interface{} element goes to gen_any; map[string]any: Model/C01.v dmap) *)\nFixpoint gen_ty (fuel : nat) (dep : N) (t : gty) (id : N) : dec tval :=\n  match fuel with\n  | O => NoFuel\n  | S f =>\n      match t with\n      | GAny => a <- gen_any fuel dep id ;; Ret (XAny a)\n      | GMapAny => a <- dmap fuel dep id ;; Ret (XAny a)\n      | _ =>\n")
+	c.out.WriteString(chain(func(a c3arms) string { return a.ty }, "      "))
+	c.out.WriteString("      end\n  end.\n\n")
+	// struct-side destinations of Model/C03.v: the recursive decoder is a parameter (self)
+	la := arms["TagList"]
+	sc, mc := c.caseCompoundSt(c.caseOf(usw, "TagCompound"))
+	c.out.WriteString("Section St.\nVariable self : nat -> N -> sty -> sval -> N -> dec sval.\n")
+	fmt.Fprintf(&c.out, "(* TagCompound into a struct *)\nDefinition gen_st_struct (f : nat) (dep : N) (fs : list (list N * sty)) (cur : sval) : dec sval :=\n    %s.\n", sc)
+	fmt.Fprintf(&c.out, "(* TagCompound into a map[string]any *)\nDefinition gen_st_map (f : nat) (dep : N) (cur : sval) : dec sval :=\n    %s.\n", mc)
+	fmt.Fprintf(&c.out, "(* TagList into []T, T a struct / pointer / array / RawMessage *)\nDefinition gen_st_list (f : nat) (dep : N) (t : sty) : dec sval :=\n    %s.\n", la.stList)
+	fmt.Fprintf(&c.out, "(* TagList into an array holding c *)\nDefinition gen_st_array (f : nat) (dep : N) (t : gty) (c : list tval) : dec sval :=\n    %s.\nEnd St.\n\n", la.stArray)
+}
+
+// ---- 6. dynbt: (*Value).unmarshal as a reader producing the stored layout ----
+
+func (c *c3) genDyn(f *ast.File) {
+	fd := c.fn(f, "*Value", "unmarshal")
+	b := fd.Body.List
+	if len(b) != 5 {
+		c.fail(fd, "dynbt unmarshal: expected depth test; v.tag = tagType; var buf; switch; return nil")
+	}
+	c.want(b[0], `if (tagType == nbt.TagList || tagType == nbt.TagCompound) && depth > maxNestingDepth { return errors.New("exceeded max nesting depth") }`)
+	c.want(b[1], "v.tag = tagType")
+	c.want(b[2], "var buf [8]byte")
+	c.want(b[4], "return nil")
+	sw, ok := b[3].(*ast.SwitchStmt)
+	if !ok || c.src(sw.Tag) != "tagType" {
+		c.fail(b[3], "dynbt unmarshal: expected `switch tagType`")
+	}
+	cs, def := clauses(sw)
+	if def == nil || len(def.Body) != 1 || !strings.HasPrefix(c.src(def.Body[0]), "return fmt.Errorf(") {
+		c.fail(sw, "dynbt unmarshal: the default case must return an error")
+	}
+	// the constant of package dynbt must be the one of package nbt (Gen/Consts.v has only the latter)
+	found := false
+	for _, d := range f.Decls {
+		if g, ok := d.(*ast.GenDecl); ok && g.Tok == token.CONST {
+			for _, sp := range g.Specs {
+				vs := sp.(*ast.ValueSpec)
+				if len(vs.Names) == 1 && vs.Names[0].Name == "maxNestingDepth" {
+					fmt.Fprintf(&c.out, "Definition dynbt_maxNestingDepth : Z := (%s)%%Z.\n\n", c.src(vs.Values[0]))
+					found = true
+				}
+			}
+		}
+	}
+	if !found {
+		c.fail(f, "dynbt: const maxNestingDepth not found")
+	}
+	errRet := func(s ast.Stmt) { // if err != nil { return err }
+		if !c.isErrReturn(s) {
+			c.fail(s, "dynbt: expected `if err != nil { return err }`")
+		}
+	}
+	neg := func(s ast.Stmt, v string) {
+		if !c.isNegative(s, v) {
+			c.fail(s, "dynbt: expected `if %s < 0 { return errors.New(..) }`", v)
+		}
+	}
+	c.out.WriteString("(* dynbt Value.unmarshal: DData id bytes = (tag, data) as stored, DList / DComp = list / kvs *)\nFixpoint gen_dyn (fuel : nat) (dep : N) (id : N) : dec dval :=\n  match fuel with\n  | O => NoFuel\n  | S f =>\n")
+	for i, cc := range cs {
+		var conds []string
+		var tags []string
+		for _, e := range cc.List {
+			conds = append(conds, fmt.Sprintf("(id =? Z.to_N %s)", tagConst(c, e)))
+			tags = append(tags, strings.TrimPrefix(c.src(e), "nbt."))
+		}
+		cond := strings.Join(conds, " || ")
+		if len(conds) == 1 {
+			cond = strings.Trim(cond, "()")
+		}
+		l := cc.Body
+		var body string
+		array := func(mul string) string {
+			if len(l) != 5 {
+				c.fail(cc, "dynbt array case: expected count; err; < 0; header; appendN")
+			}
+			c.want(l[0], "n, err := readInt32(r)")
+			errRet(l[1])
+			neg(l[2], "n")
+			c.want(l[3], "v.data = binary.BigEndian.AppendUint32(v.data[:0], uint32(n))")
+			size := "int(n)"
+			coq := "(Z.to_N n)"
+			if mul != "" {
+				size, coq = "int(n)*"+mul, "("+mul+" * Z.to_N n)"
+			}
+			c.want(l[4], "if v.data, err = appendN(v.data, r, "+size+"); err != nil { return err }")
+			return "ReadFull 4 (fun h => let n := sx32 (unbe h) in if (n <? 0)%Z then Fail eNeg else ReadFull " + coq + " (fun bs => Ret (DData id (h ++ bs))))"
+		}
+		switch strings.Join(tags, ",") {
+		case "TagEnd":
+			if len(l) != 0 {
+				c.fail(cc, "dynbt: `case nbt.TagEnd:` must be empty")
+			}
+			body = "Ret (DData id [])"
+		case "TagByte":
+			if len(l) != 3 {
+				c.fail(cc, "dynbt TagByte shape")
+			}
+			c.want(l[0], "n, err := r.ReadByte()")
+			errRet(l[1])
+			c.want(l[2], "v.data = append(v.data[:0], n)")
+			body = "b <- rd_u8 ;; Ret (DData id [b])"
+		case "TagShort", "TagInt,TagFloat", "TagLong,TagDouble":
+			k := map[string]string{"TagShort": "2", "TagInt,TagFloat": "4", "TagLong,TagDouble": "8"}[strings.Join(tags, ",")]
+			sl := "buf[:" + k + "]"
+			if k == "8" {
+				sl = "buf[:]"
+			}
+			if len(l) != 2 {
+				c.fail(cc, "dynbt fixed-size case shape")
+			}
+			c.want(l[0], "if _, err := io.ReadFull(r, "+sl+"); err != nil { return err }")
+			c.want(l[1], "v.data = append(v.data[:0], "+sl+"...)")
+			body = "ReadFull " + k + " (fun bs => Ret (DData id bs))"
+		case "TagByteArray":
+			body = array("")
+		case "TagIntArray":
+			body = array("4")
+		case "TagLongArray":
+			body = array("8")
+		case "TagString":
+			if len(l) != 7 {
+				c.fail(cc, "dynbt TagString shape")
+			}
+			c.want(l[0], "n, err := readInt16(r)")
+			errRet(l[1])
+			neg(l[2], "n")
+			c.want(l[3], "v.data = append(v.data[:0], make([]byte, 2+int(n))...)")
+			c.want(l[4], "binary.BigEndian.PutUint16(v.data, uint16(n))")
+			c.want(l[5], "_, err = io.ReadFull(r, v.data[2:])")
+			errRet(l[6])
+			body = "ReadFull 2 (fun h => let n := sx16 (unbe h) in if (n <? 0)%Z then Fail eNeg else ReadFull (Z.to_N n) (fun bs => Ret (DData id (h ++ bs))))"
+		case "TagList":
+			if len(l) != 9 {
+				c.fail(cc, "dynbt TagList shape")
+			}
+			c.want(l[0], "t, err := r.ReadByte()")
+			errRet(l[1])
+			c.want(l[2], "length, err := readInt32(r)")
+			errRet(l[3])
+			neg(l[4], "length")
+			endElem := "if (t =? idEnd) && (0 <? n)%Z then Fail eEND else "
+			c.want(l[5], "if t == nbt.TagEnd && length > 0 { return nbt.ErrEND }")
+			c.want(l[6], "v.list = v.list[:0]")
+			c.want(l[7], "v.data = append(v.data[:0], t)")
+			fs, ok := l[8].(*ast.ForStmt)
+			if !ok || c.src(fs.Init) != "i := int32(0)" || c.src(fs.Post) != "i++" {
+				c.fail(l[8], "dynbt TagList: expected `for i := int32(0); i < length; i++`")
+			}
+			be, ok := fs.Cond.(*ast.BinaryExpr)
+			if !ok || c.src(be.X) != "i" || c.src(be.Y) != "length" || (be.Op != token.LSS && be.Op != token.LEQ) {
+				c.fail(fs, "dynbt TagList: loop condition")
+			}
+			count := "(Z.to_N n)"
+			if be.Op == token.LEQ {
+				count = "(Z.to_N n + 1)"
+			}
+			fb := fs.Body.List
+			if len(fb) != 4 {
+				c.fail(fs, "dynbt TagList: loop body")
+			}
+			c.want(fb[0], "field := new(Value)")
+			c.want(fb[1], "err = field.unmarshal(t, r, depth+1)")
+			errRet(fb[2])
+			c.want(fb[3], "v.list = append(v.list, field)")
+			body = "if dep =? 0 then Fail eDepth else t <- rd_u8 ;; n <- rd_i32 ;; if (n <? 0)%Z then Fail eNeg else " + endElem +
+				"l <- rep f " + count + " (gen_dyn f (dep - 1) t) [] ;; Ret (DList l)"
+		case "TagCompound":
+			if len(l) != 1 {
+				c.fail(cc, "dynbt TagCompound shape")
+			}
+			fs, ok := l[0].(*ast.ForStmt)
+			if !ok {
+				c.fail(l[0], "dynbt TagCompound: expected the tag loop")
+			}
+			lb, hasEnd := c.tagLoop(fs, "t, name, err := readTag(r)", "t == nbt.TagEnd")
+			if len(lb) != 4 {
+				c.fail(fs, "dynbt TagCompound: loop body")
+			}
+			c.want(lb[0], "field := new(Value)")
+			c.want(lb[1], "err = field.unmarshal(t, r, depth+1)")
+			c.want(lb[2], "if err != nil { return decodeErr{name, err} }")
+			c.want(lb[3], "v.comp.kvs = append(v.comp.kvs, kv{tag: name, v: field})")
+			loop := "comp_loop"
+			if !hasEnd {
+				loop = "comp_loop_noend"
+			}
+			body = "if dep =? 0 then Fail eDepth else m <- " + loop + " f gen_dyn_readTag (gen_dyn f (dep - 1)) (fun k v m => (k, v) :: m) [] ;; Ret (DComp (rev_append m []))"
+		default:
+			c.fail(cc, "dynbt: case %s not handled", strings.Join(tags, ","))
+		}
+		kw := "      else if "
+		if i == 0 {
+			kw = "      if "
+		}
+		fmt.Fprintf(&c.out, "%s%s then %s\n", kw, cond, body)
+	}
+	c.out.WriteString("      else Fail eUnknown\n  end.\n\n")
+}
+
+func (c *c3) dynReaders(f *ast.File) {
+	// readString: the same statements as (*Decoder).readString with readInt16(r) / io.ReadFull(r, buf)
+	fd := c.fn(f, "", "readString")
+	b := fd.Body.List
+	if len(b) != 5 {
+		c.fail(fd, "dynbt readString: expected 5 statements")
+	}
+	c.want(b[0], "length, err := readInt16(r)")
+	c.want(b[1], `if err != nil { return "", err } else if length < 0 { return "", errors.New("string length less than 0") }`)
+	c.want(b[2], "var str string")
+	c.want(b[3], "if length > 0 { buf := make([]byte, length) _, err = io.ReadFull(r, buf) str = string(buf) }")
+	c.want(b[4], "return str, err")
+	c.out.WriteString("Definition gen_dyn_readString : dec (list N) :=\n  n <- rd_i16 ;;\n  if (n <? 0)%Z then Fail eNeg\n  else if (0 <? n)%Z then ReadFull (Z.to_N n) (fun bs => Ret bs)\n  else Ret [].\n")
+	fd = c.fn(f, "", "readTag")
+	b = fd.Body.List
+	if len(b) != 4 {
+		c.fail(fd, "dynbt readTag: expected 4 statements")
+	}
+	c.want(b[0], "tagType, err = r.ReadByte()")
+	c.want(b[1], "if err != nil { return }")
+	c.want(b[2], "switch tagType { case nbt.TagEnd: default: tagName, err = readString(r) }")
+	c.want(b[3], "return")
+	c.out.WriteString("Definition gen_dyn_readTag : dec (N * list N) :=\n  t <- rd_u8 ;;\n  if t =? Z.to_N nbt_TagEnd then Ret (t, [])\n  else name <- gen_dyn_readString ;; Ret (t, name).\n\n")
+	for _, n := range []struct{ name, ty, k string }{{"readInt16", "uint16", "2"}, {"readInt32", "uint32", "4"}} {
+		fd = c.fn(f, "", n.name)
+		b = fd.Body.List
+		bits := map[string]string{"2": "16", "4": "32"}[n.k]
+		if len(b) != 3 {
+			c.fail(fd, "dynbt %s shape", n.name)
+		}
+		c.want(b[0], "var data ["+n.k+"]byte")
+		c.want(b[1], "_, err := io.ReadFull(r, data[:])")
+		c.want(b[2], "return int"+bits+"(binary.BigEndian.Uint"+bits+"(data[:])), err")
+	}
+}
+
 // emitC03 writes coq/Gen/C03gen.v
 func emitC03(repo, outdir string) {
 	c := &c3{fset: token.NewFileSet()}
@@ -859,7 +1789,7 @@ func emitC03(repo, outdir string) {
 	dyn := c.parse(filepath.Join(repo, "nbt", "dynbt", "decode.go"))
 
 	c.out.WriteString("(* GENERATED by tools/gotrans/c03.go from nbt/decode.go, nbt/snbt.go, nbt/dynbt/decode.go - do not edit *)\n")
-	c.out.WriteString("From Coq Require Import List String NArith ZArith Bool.\nFrom GoMC Require Import Base.Bytes Base.Dec Gen.Consts Model.C01 Model.C03_syntax.\nImport ListNotations.\nOpen Scope string_scope.\nOpen Scope N_scope.\n\n")
+	c.out.WriteString("From Coq Require Import List String NArith ZArith Bool.\nFrom GoMC Require Import Base.Bytes Base.Dec Gen.Consts Model.C01 Model.C03 Model.C03_syntax.\nImport ListNotations.\nOpen Scope string_scope.\nOpen Scope N_scope.\n\n")
 
 	un := c.fn(dec, "*Decoder", "unmarshal")
 	usw := c.tagSwitch(un)
@@ -898,6 +1828,9 @@ func emitC03(repo, outdir string) {
 
 	c.readers(dec)
 	c.rawRead(dec)
+	c.genUnmarshal(usw)
+	c.dynReaders(dyn)
+	c.genDyn(dyn)
 
 	for _, n := range []string{"enter", "readTag", "readString", "readInt8", "readInt16", "readInt32", "readInt64", "rawRead"} {
 		c.skel("skel_"+n, c.fn(dec, "*Decoder", n))
@@ -906,6 +1839,9 @@ func emitC03(repo, outdir string) {
 	for _, t := range []string{"TagByteArray", "TagIntArray", "TagLongArray", "TagList"} {
 		c.skelCase("skel_unmarshal_"+t, c.caseOf(usw, t))
 	}
+	c.skelCase("skel_unmarshal_TagCompound", c.caseOf(usw, "TagCompound"))
+	c.skel("skel_indirect", c.fn(dec, "", "indirect"))
+	c.skel("skel_unmarshal_head", &ast.FuncDecl{Body: &ast.BlockStmt{List: un.Body.List[:3]}})
 	c.skel("skel_dynbt_unmarshal", c.fn(dyn, "*Value", "unmarshal"))
 	c.skel("skel_dynbt_readTag", c.fn(dyn, "", "readTag"))
 	c.skel("skel_dynbt_readString", c.fn(dyn, "", "readString"))
